@@ -487,7 +487,17 @@ impl Check for AddrCheck {
             _ => Variant::Default,
         };
         let prefix = gen_prefix(g);
-        let mut other_prefix = gen_prefix(g);
+        // the foreign prefix is often a close relative of the own one: an extension or a truncation
+        let mut other_prefix = match g.weighted(&[3, 1, 1, 1]) {
+            1 if prefix.len() < 80 => format!("{}x", prefix),
+            2 if prefix.chars().count() >= 2 => {
+                let mut p = prefix.clone();
+                p.pop();
+                p
+            }
+            3 if prefix.len() < 80 => format!("x{}", prefix),
+            _ => gen_prefix(g),
+        };
         if other_prefix == prefix {
             other_prefix.push('x');
             if other_prefix.len() > 83 {
